@@ -63,7 +63,9 @@ func (p *Project) WorkflowsDir() string {
 // project's directory, the project knows the file.
 func (p *Project) Knows(path string) bool {
 	// TODO: strings.HasPrefix is not perfect to check file path
-	return strings.HasPrefix(absPath(path), p.root)
+	path = absPath(path)
+	// Check the prefix by path components. "/foo/bar2/x.yaml" is not in the project "/foo/bar"
+	return path == p.root || strings.HasPrefix(path, strings.TrimSuffix(p.root, string(filepath.Separator))+string(filepath.Separator))
 }
 
 // Config returns config object of the GitHub project repository. The config file was read from
